@@ -1,0 +1,14 @@
+//go:build verif
+
+// Contracts for package hashing (comment-only; read by /verif/govc).
+
+package hashing
+
+//@ func IsValidModelMultihash(model, modelMultihash) (err)
+//@   pure
+
+//@ func IsComputedUsingMultihashAlgorithms(encodedMultihash, codes) (r)
+//@   pure
+//
+//@ func GetMultihashCode(encodedMultihash) (code, err)
+//@   pure
